@@ -99,7 +99,7 @@ def run(ctx):
                 "isolated samples, identical rows for identical inputs under unique=True; the rescale / n_neighbors-truncation / unique "
                 "round-trip stage models are compared with the implementation; non-trivial = configuration not seen before in the run. "
                 "init='pca' with fewer features than components (rejected by scikit-learn) is outside 'valid configuration'")
-    ctx.assumptions += ["PARTIAL: definedness / shape logic is modelled; float finiteness of the optimiser and of third-party initialisers "
+    ctx.assumptions += ["PARTIAL: definedness / shape logic is modelled (csr_unique keys, neighbour-count truncation, noisy_scale_coords factor, the final axis rescale: run against the implementation here); float finiteness of the optimiser and of third-party initialisers "
                         "(PCA, ARPACK) is validated, not proved"]
     combos = []
     # pairwise covering: every (shape, init) pair, the other factors cycling
@@ -123,6 +123,71 @@ def run(ctx):
     combos += [("duplicates", "random", "euclidean", True, True, 2, 11, 1.0), ("far-pair", "random", "euclidean", False, False, 2, 11, 1.0)]
     seen = set()
     combo_no = 0
+    drv = Driver()
+    pend = []          # (handle, kind, expected, case)
+
+    # ---- correspondence of the modelled definedness logic ----
+    import umap.utils as UT
+    import umap.umap_ as UU
+    # (a) csr_unique vs SparseRow.key: random sparse rows stored non-canonically (shuffled columns, explicit zeros, repeated columns with
+    #     dyadic values so that the sums are exact), several of them the same sample
+    for t in range(60 if ctx.thorough else 12):
+        ncol = int(rng.integers(3, 9))
+        nrow = int(rng.integers(2, 12))
+        base_rows = []
+        for _ in range(nrow):
+            if base_rows and rng.random() < 0.45:
+                base_rows.append(dict(base_rows[int(rng.integers(len(base_rows)))]))      # the same sample again
+            else:
+                cs = rng.choice(ncol, size=int(rng.integers(0, ncol)), replace=False)
+                base_rows.append({int(c): float(rng.integers(-8, 9)) / 4.0 for c in cs})
+        ind, dat, ptr, toks = [], [], [0], ["uniquerows", nrow]
+        for rw in base_rows:
+            ent = []
+            for c, v in rw.items():
+                if v != 0 and rng.random() < 0.3:
+                    a_ = float(rng.integers(-8, 9)) / 4.0
+                    ent += [(c, a_), (c, v - a_)]          # one value stored as two entries of the same column
+                else:
+                    ent.append((c, v))
+            absent = [j for j in range(ncol) if j not in rw]
+            if absent and rng.random() < 0.3:
+                ent.append((int(rng.choice(absent)), 0.0))  # an explicitly stored zero
+            ent = [ent[j] for j in rng.permutation(len(ent))]
+            ind += [c for c, _ in ent]
+            dat += [v for _, v in ent]
+            ptr.append(len(ind))
+            toks += [len(ent)] + [x for c, v in ent for x in (c, f2b(v))]
+        S = scipy.sparse.csr_matrix((np.array(dat, dtype=np.float32), np.array(ind, dtype=np.int32), np.array(ptr, dtype=np.int32)), shape=(nrow, ncol))
+        dense = np.zeros((nrow, ncol))
+        for i, rw in enumerate(base_rows):
+            for c, v in rw.items():
+                dense[i, c] = v
+        case = {"part": "csr_unique", "rows": [[list(map(float, e)) for e in zip(ind[ptr[i]:ptr[i + 1]], dat[ptr[i]:ptr[i + 1]])] for i in range(nrow)]}
+        try:
+            index, inverse, _ = UT.csr_unique(S)
+            rep = np.asarray(index)[np.asarray(inverse).ravel()].tolist()
+        except Exception as e:  # noqa
+            ctx.violation("exception", f"csr_unique raised {type(e).__name__}: {e}", case)
+            continue
+        # the property's clause on the implementation: same representative <=> same sample
+        for a in range(nrow):
+            for b in range(a):
+                if (rep[a] == rep[b]) != bool(np.array_equal(dense[a], dense[b])):
+                    ctx.violation("unique-identical", f"csr_unique: rows {b} and {a} are {'the same' if np.array_equal(dense[a], dense[b]) else 'different'} "
+                                                      f"samples but {'do not ' if rep[a] != rep[b] else ''}share a representative", case, key="C05:unique-explicit-zero")
+                    break
+        pend.append((drv.add(*toks), "uniquerows", rep, case))
+        ctx.case(key="csru" + str(case["rows"]), nontrivial=len(set(rep)) < nrow, part="csr_unique")
+    # (b) noisy_scale_coords (noise 0) vs Pipeline.expansion
+    for t in range(20 if ctx.thorough else 6):
+        co = (rng.normal(size=(int(rng.integers(2, 9)), int(rng.integers(1, 4)))) * float(rng.choice([1e-3, 1.0, 40.0]))).astype(np.float32)
+        if t % 3 == 2:
+            co[:] = 0.0
+        out = UU.noisy_scale_coords(co.copy(), np.random.RandomState(0), max_coord=10.0, noise=0.0)
+        ma = float(np.abs(co).max())
+        pend.append((drv.add("expansion", f2b(10.0), f2b(ma)), "expansion", (co, np.asarray(out)), {"part": "noisy_scale_coords", "coords": co.tolist()}))
+        ctx.case(key="exp" + str(co.tolist()), nontrivial=ma > 0, part="noisy_scale_coords")
     # corpus: the witness of the recorded open finding runs first (two distinct rows, unique=True)
     Xw = np.array([[0.0, 1.0], [2.0, 3.0]] * 6, dtype=np.float32)
     try:
@@ -191,6 +256,17 @@ def run(ctx):
             seen.add(desc)
             continue
         E = np.asarray(E)
+        ndist = len(np.unique(X, axis=0)) if unique else n
+        if hasattr(m, "_n_neighbors"):       # a single distinct sample returns early, before the neighbour count is fixed
+            pend.append((drv.add("truncatek", ndist, kw["n_neighbors"]), "truncatek", int(m._n_neighbors),
+                         {k_: case[k_] for k_ in case if k_ != "X"}))
+        if (isinstance(init, np.ndarray) and kw.get("n_epochs") == 0 and not unique and E.shape == (n, nc) and not dens
+                and len(np.unique(init, axis=0)) == n and np.isfinite(E).all()):
+            # zero epochs with a user layout of distinct rows: the result is that layout rescaled axis by axis
+            for ax in range(nc):
+                col = np.asarray(init[:, ax], dtype=np.float32)
+                pend.append((drv.add("rescale10", f2b(float(col.min())), f2b(float(col.max())), n, *[f2b(float(v)) for v in col]), "rescale10",
+                             E[:, ax].astype(np.float64), {k_: case[k_] for k_ in case if k_ != "X"}))
         if E.shape != (n, nc):
             ctx.violation("shape", f"result shape {E.shape}, expected ({n}, {nc})", case, key=f"C05:shape:{sh}:{ini}")
         elif E.dtype != np.float32:
@@ -218,3 +294,23 @@ def run(ctx):
         ctx.case(key=desc, nontrivial=desc not in seen, sample={k_: case[k_] for k_ in case if k_ != "X"} if len(ctx.samples) < 5 else None,
                  shape=sh, init=ini, metric=metric, sparse=sparse, unique=unique, n_components=nc, n_epochs=str(ne))
         seen.add(desc)
+
+    outs = drv.run()
+    for h, kind, want, case in pend:
+        o = outs[h]
+        if kind == "uniquerows":
+            if [int(x) for x in o.split()] != [int(x) for x in want]:
+                ctx.mismatch("uniquerows", {"impl": [int(x) for x in want], "model": o}, case)
+        elif kind == "truncatek":
+            if int(o) != want:
+                ctx.mismatch("truncatek", {"impl": want, "model": int(o)}, case)
+        elif kind == "expansion":
+            co, out = want
+            exp = b2f(o) * co.astype(np.float64)
+            if out.shape != co.shape or np.max(np.abs(exp - out)) > 1e-5 * max(1.0, float(np.max(np.abs(exp)))):
+                ctx.mismatch("expansion", {"impl": np.asarray(out).tolist(), "model": exp.tolist()}, case)
+        elif kind == "rescale10":
+            mo = np.array([b2f(x) for x in o.split()])
+            if mo.shape != want.shape or np.max(np.abs(mo - want)) > 2e-5:
+                ctx.mismatch("rescale10", {"max_diff": float(np.max(np.abs(mo - want))) if mo.shape == want.shape else -1.0}, case)
+        ctx.bin("correspondence", kind)
